@@ -181,18 +181,9 @@ def build(case):
         def wrap(base, ops):
             contextvars.copy_context().run(run, base, ops)
 
-        if n == 5:
-            def h5(base: int, o0: int, o1: int, o2: int, o3: int, o4: int):
-                wrap(base, [o0, o1, o2, o3, o4])
-            return h5
-        if n == 6:
-            def h6(base: int, o0: int, o1: int, o2: int, o3: int, o4: int, o5: int):
-                wrap(base, [o0, o1, o2, o3, o4, o5])
-            return h6
+        from pv.engine.xsym import int_harness
 
-        def h7(base: int, o0: int, o1: int, o2: int, o3: int, o4: int, o5: int, o6: int):
-            wrap(base, [o0, o1, o2, o3, o4, o5, o6])
-        return h7
+        return int_harness(lambda base, *ops: wrap(base, list(ops)), ["base"] + [f"o{i}" for i in range(n)])
 
     # ------------------------------------------------------------------ inductive step
     from ptera.overlay import proceed
